@@ -51,7 +51,8 @@ def family_kernels(forms):
 _W = {}
 
 
-def _init(model_path, forms):
+def _init(model_path, forms, cli_arch="zen1"):
+    _W["cli_arch"] = cli_arch
     import warnings
 
     warnings.filterwarnings("ignore")
@@ -63,6 +64,17 @@ def _init(model_path, forms):
     _W["px"] = ParserX86ATT()
     _W["forms"] = forms
     _W["cache"] = {}
+    # the CLI path: osaca.inspect with the family model installed as a user model (see run()); the kernel the
+    # report is rendered from is captured instead of rendering it
+    import osaca.osaca as oo
+
+    class Capture(oo.Frontend):
+        def full_analysis(self, kernel, kernel_dg, **kw):
+            _W["cli"] = max(ArchSemantics.get_throughput_sum(kernel))
+            return ""
+
+    oo.Frontend = Capture
+    _W["oo"] = oo
 
 
 def _bottlenecks(kernel_idx):
@@ -84,6 +96,20 @@ def _bottlenecks(kernel_idx):
             res["neg"] = min(min(i.port_pressure) for i in kernel)
         except Exception as e:  # noqa
             res["exc"] = type(e).__name__
+        # the same kernel through osaca.inspect (what the command line does)
+        try:
+            import argparse
+            import io
+
+            f = io.StringIO("\n".join(lines) + "\n")
+            f.name = "family.s"
+            args = argparse.Namespace(file=f, arch=_W["cli_arch"], fixed=False, verbose=0, ignore_unknown=False, lines=None,
+                                      lcd_timeout=-1, consider_flag_deps=False, dotpath=None, yaml_out=None)
+            _W["cli"] = None
+            _W["oo"].inspect(args, output_file=io.StringIO())
+            res["cli"] = _W["cli"]
+        except Exception as e:  # noqa
+            res["cli_exc"] = type(e).__name__
         out.append(res)
     return out
 
@@ -106,6 +132,8 @@ def run(ctx):
     forms = family_forms()
     model = {"ports": PORTS3, "forms": forms}
     mpath = S.write_model(model, ctx.env.work, "family3")
+    # the same model as user model `zen1` in the private HOME, so that `osaca.inspect --arch zen1` uses it
+    S.write_model(model, ctx.env.data, "zen1")
     kernels = family_kernels(forms)
     assert len(kernels) == 5355, len(kernels)
     nproc = 16
@@ -134,6 +162,13 @@ def run(ctx):
             ctx.violation("optimised scheduling raised %s on family kernel %s" % (r["exc"], desc), dict(info, exception=r["exc"]))
             continue
         b = r["twice"]
+        if r.get("cli") is None:
+            ctx.violation("osaca.inspect raised %s on family kernel %s" % (r.get("cli_exc"), desc), dict(info, exception=r.get("cli_exc")))
+            continue
+        if abs(r["cli"] - b) > 1e-9:
+            # what the command line reports differs from add_semantics + two balancing passes
+            ctx.correspondence_break("inspect-vs-two-passes", dict(info, cli=r["cli"], api_twice=b))
+            b = r["cli"]
         if r["uniform"] - float(lb) > 1e-9:
             nontriv += 1
         excess, under = b - float(lb), float(lb) - b
